@@ -276,6 +276,18 @@ func TestDenseCatalogue(t *testing.T) {
 	})
 }
 
+// TestControlFlow: generated control-flow shapes (returns, breaks and continues in arbitrary
+// positions, else-if chains): most are rejected — the errors must be structured and located.
+func TestControlFlow(t *testing.T) {
+	if !setup() {
+		t.Skip("setup failed")
+	}
+	rapid.Check(t, func(t *rapid.T) {
+		src := gen.GenerateControlFlow(t)
+		check(t, "TestControlFlow", Case{PkgPath: "main", Files: []tv.SourceFile{{Name: "prog.go", Src: src}}, Kind: "controlflow"})
+	})
+}
+
 // ---- (b) mutation of the shipped examples ----
 
 type seedPkg struct {
